@@ -12,12 +12,15 @@
 (* During the period the environment is only restricted where the premise  *)
 (* of C16 says so ("prompt contact"):                                      *)
 (*   - HLead starts a replication round in every tick,                     *)
-(*   - no message between HLead and a member of HMaj is lost: time does    *)
-(*     not pass while one of them has been in flight for D.                *)
-(* With E > 1 + D every member of HMaj then hears from HLead less than E   *)
-(* ago at all times, and with L >= 2 (rounds every tick, answers within    *)
-(* 2D) HLead's lease - the only thing that makes a LEADER ignore vote      *)
-(* requests - never lapses.  The other nodes are free: their timers fire whenever *)
+(*   - every message between HLead and a member of HMaj is answered within *)
+(*     the tick it was sent in: time does not pass while one is in flight. *)
+(* Every member of HMaj then hears from HLead less than E ago at all times,*)
+(* and with L >= 2 HLead's lease - the only thing that makes a LEADER      *)
+(* ignore vote requests - never lapses.  (A first version allowed these    *)
+(* messages a delay of D each way; TLC then found the leader's lease       *)
+(* lapsing between two renewals and the leader granting a vote: "prompt"   *)
+(* has to mean faster than the lease, which is how the code's defaults -   *)
+(* heartbeat 50 ms, lease 100 ms - are meant.)  The other nodes are free: their timers fire whenever *)
 (* the code allows, every message from or to them may be delayed up to D   *)
 (* or lost, they may campaign as often as the budget allows.               *)
 (***************************************************************************)
@@ -45,7 +48,7 @@ BeginHealthy ==
   /\ UNCHANGED tvars
 
 HTick ==
-  /\ hp => hbt /\ \A m \in net : Between(m) => mage[m] < D
+  /\ hp => hbt /\ \A m \in net : ~Between(m)
   /\ Tick
   /\ hbt' = FALSE /\ UNCHANGED <<hp, t0>>
 
